@@ -130,11 +130,11 @@ func (w *world) bigintHelpers(r *hlib.Rng) {
 	for _, n := range []int{0, 1, 2, 3, 32, 33, 48, 49, 66, 67} {
 		for L := 0; L <= 2*n+2; L++ {
 			for z := 0; z <= n+2 && z <= L; z++ {
-				// boundary positions get every payload class, the others two (all of them in the thorough tier)
+				// boundary positions get every payload class, the others one in rotation (all of them in the thorough tier)
 				edge := z <= 2 || z >= L-1 || (z >= L-n-1 && z <= L-n+1) || n <= 3
 				ps := payloads(r, L-z)
 				for ci, p := range ps {
-					if !edge && quickTier && ci != (L+z)%5 && ci != 5 {
+					if !edge && quickTier && ci != (L+z)%7 {
 						continue
 					}
 					in := append(make([]byte, z), p...)
